@@ -3,7 +3,7 @@ import common as C
 import gen as G
 
 THEOREMS = ['unflatten_flatten', 'flatten_concatenates_in_order', 'missing_list_contributes_nothing',
-            'num_gives_lengths', 'local_index_counts_from_zero', 'offsets_are_running_sums']
+            'num_gives_lengths', 'local_index_counts_from_zero', 'offsets_are_running_sums', 'num_refines_spec', 'local_index_refines_spec', 'value_has_layout_length']
 RULE = ('value-first random layouts x (num | localindex | flatten) x axis (positive, negative, some out of range); '
         'non-trivial = the input has >= 1 non-empty list and the operation succeeded; distinct by case text')
 ASSUMPTIONS = ['types containing unions are outside the specified fragment (skipped, counted)',
